@@ -8,7 +8,7 @@ from ..vloop import run_virtual
 from .. import procrun as pr
 
 RULE = ("one case = one delivery handled by a real Worker on the recording in-memory broker: cross product of actor endings "
-        "(return, raise, timeout, input-conversion failure, dependency failure) and eager responses (6 actions x result/"
+        "(return, raise, timeout, input-conversion failure, output-conversion failure, dependency failure) and eager responses (6 actions x result/"
         "exception/callbacks, incl. failing ones) x retry states x recurring x result on/off x Basic/Pydantic converter, plus "
         "mixes of up to 8 such deliveries processed concurrently by one worker; distinct by printed Coq case; non-trivial = "
         "the delivery reached a disposition decision (always) ")
@@ -78,7 +78,7 @@ def oracle(case, r, intern) -> list[tuple[str, str]]:
     place = {"ack": [], "nack": ["dead"], "requeue": ["delayed"], "reject": ["simple"]}[got]
     if r["deliveries"] == 1 and r["places"] != place:
         bad.append(("wrong_final_place", f"after {got} the message is in {r['places']}"))
-    if case["fin"][0] in ("return", "raise", "timeout") and r["actor_starts"] != 1:
+    if case["fin"][0] in ("return", "raise", "timeout", "outfail") and r["actor_starts"] != 1:
         bad.append(("actor_invocations", f"actor body started {r['actor_starts']} times"))
     if case["fin"][0] in ("convfail", "depfail") and r["actor_starts"] != 0:
         bad.append(("actor_ran_despite_failure", "actor body ran although conversion/dependency resolution failed"))
@@ -88,7 +88,8 @@ def oracle(case, r, intern) -> list[tuple[str, str]]:
 def gen_cases(ctx: Ctx, rng) -> list[dict]:
     cases = []
     def fins(conv):
-        return [("return", 5), ("raise", 61), ("timeout",), ("convfail", 9005 if conv == "basic" else 9004), ("depfail", 62)]
+        return [("return", 5), ("raise", 61), ("timeout",), ("convfail", 9005 if conv == "basic" else 9004), ("depfail", 62),
+                ("outfail", 9003)]
     for conv in ("basic", "pydantic"):
         for fin in fins(conv):
             for mx, tried in RETRY_STATES:
